@@ -89,3 +89,115 @@ contract("ghost:pibas_result_roundtrip", params=dict(x=REST, config=CFGT), retur
 contract("ghost:pibas_edb_roundtrip", params=dict(x=EDBT, config=CFGT), returns=EDBT, ghost_scope=S + "structures.py",
          body=RT.format(n="pibas_edb_roundtrip", cls="PiBasEncryptedDatabase"),
          ensures=["dmap(result.D) == dmap(x.D)"], props=["C03"])
+
+# ---- construction ----------------------------------------------------------------------------------------------
+B01 = z3.Unit(z3.BitVecVal(1, 8))
+B02 = z3.Unit(z3.BitVecVal(2, 8))
+_dkD = speclib.dkeys_fn(DBT)
+_kpD = speclib.dkpos_fn(DBT)
+
+
+def i2b_min(c):
+    return i2b(c, (bitlen(c) + 7) / 8)
+
+
+def pb_core(out, K, DB, l):
+    """l is the label of the stored pair (w, c):  returns (core condition, w, c)"""
+    key = prf_kinv(l)
+    msg = prf_minv(l)
+    km = prf_minv(key)
+    w = z3.Extract(km, 1, Len(km) - 1)
+    c = b2i(msg)
+    core = z3.And(l == prf(SHA1, out, key, msg), key == prf(SHA1, out, K, z3.Concat(B01, w)), db_has(DB, w),
+                  msg == i2b_min(c), c < Len(db_list(DB, w)))
+    return core, w, c
+
+
+def _pb_inv(M, out, K, DB, kidx, ccur):
+    l = z3.Const("l_", BYTES)
+    core, w, c = pb_core(out, K, DB, l)
+    okk = z3.And(core, z3.Or(_kpD(DB, w) < kidx, z3.And(_kpD(DB, w) == kidx, c < ccur)))
+    cell = z3.Select(M, l)
+    body = z3.And(z3.Not(OB.is_none(cell)) == okk,
+                  z3.Implies(okk, is_enc(prf(SHA1, out, K, z3.Concat(B02, w)), db_list(DB, w)[c], OB.val(cell))))
+    return z3.ForAll([l], body, patterns=[z3.Select(M, l)])
+
+
+pb_inv = specfn("pb_inv", [TBL, TInt, TBytes, DBT, TInt, TInt], TBool,
+                doc="the pair list so far is exactly the encrypted postings of keywords before position kidx, plus the "
+                    "first ccur postings of keyword kidx")
+pb_inv.define = _pb_inv
+pb_repr = specfn("pb_repr", [TBL, TInt, TBytes, DBT], TBool,
+                 doc="Repr: the table represents DB under K: label(w,c) -> an encryption of DB[w][c], nothing else")
+pb_repr.define = lambda M, out, K, DB: _pb_inv(M, out, K, DB, Len(_dkD(DB)), z3.IntVal(0))
+
+VALID_CFG = ["self.config.prf_f_output_length == self.config.param_lambda", "self.config.param_lambda >= 8"]
+contract(SCH + "._Gen", params=dict(self=SCHT), returns=KEYT,
+         requires=["self.config.param_lambda >= 0"],
+         ensures=["len(result.K) == self.config.param_lambda"], props=["C01", "C03"])
+contract(SCH + "._Trap", params=dict(self=SCHT, K=KEYT, keyword=TBytes), returns=TOKT,
+         requires=VALID_CFG + ["len(K.K) == self.config.param_lambda"],
+         ensures=["result.K1 == prf('sha1', self.config.param_lambda, K.K, b'\\x01' + keyword)",
+                  "result.K2 == prf('sha1', self.config.param_lambda, K.K, b'\\x02' + keyword)",
+                  "len(result.K1) == self.config.param_lambda", "len(result.K2) == self.config.param_lambda"],
+         props=["C01", "C02", "C03", "C07"])
+contract(SCH + "._Enc", params=dict(self=SCHT, K=KEYT, database=DBT), returns=EDBT,
+         requires=VALID_CFG + ["len(K.K) == self.config.param_lambda"],
+         ensures=["pb_repr(dmap(result.D), self.config.param_lambda, K.K, database)",
+                  "len(result.D) == total_upto(database, len(database))"],
+         locals={"L": PL},
+         lemmas=["A2_prf_injective", "A6_prf_len", "lmapf_frame", "distinct_frame", "dec_enc"],
+         loops={0: dict(invariant=[
+                    "pb_inv(lmapf(L, len(L)), self.config.param_lambda, K, database, it, 0)",
+                    "distinct_upto(L, len(L))", "len(L) == total_upto(database, it)"]),
+                1: dict(invariant=[
+                    "pb_inv(lmapf(L, len(L)), self.config.param_lambda, K, database, _it0, it)",
+                    "distinct_upto(L, len(L))", "len(L) == total_upto(database, _it0) + it",
+                    "K1 == prf('sha1', self.config.param_lambda, K, b'\\x01' + keyword)",
+                    "K2 == prf('sha1', self.config.param_lambda, K, b'\\x02' + keyword)"])},
+         props=["C01", "C02", "C05", "C07"])
+contract(SCH + "._Search", params=dict(self=SCHT, edb=EDBT, tk=TOKT), returns=REST,
+         ghost=dict(gK=TBytes, gDB=DBT, gq=TBytes),
+         requires=VALID_CFG + ["pb_repr(dmap(edb.D), self.config.param_lambda, gK, gDB)",
+                               "tk.K1 == prf('sha1', self.config.param_lambda, gK, b'\\x01' + gq)",
+                               "tk.K2 == prf('sha1', self.config.param_lambda, gK, b'\\x02' + gq)"],
+         ensures=["result.result == (gDB[gq] if gq in gDB else [])"],
+         locals={"result": BL},
+         lemmas=["A2_prf_injective", "A6_prf_len", "dec_enc"],
+         loops={0: dict(invariant=["c >= 0", "c <= (len(gDB[gq]) if gq in gDB else 0)",
+                                   "result == (gDB[gq][:c] if gq in gDB else [])"])},
+         props=["C01", "C02", "C07"])
+
+# ---- configuration parsing, scheme construction, public wrappers ----------------------------------------------------
+inline("toolkit/prf/__init__.py:get_prf_implementation", "toolkit/symmetric_encryption/__init__.py:get_symmetric_encryption_implementation",
+       "schemes/interface/config.py:SSEConfig.__init__", "schemes/interface/config.py:SSEConfig.check_param_exist",
+       "schemes/interface/inverted_index_sse.py:InvertedIndexSSE.__init__")
+CFGD = TPyDict(dict(scheme="CJJ14.PiBas", param_lambda=TInt, prf_f_output_length=TInt, prf_f="HmacPRF", ske="AES-CBC"))
+inline(CFG + ".__init__")
+contract(CFG + "._parse_config", params=dict(self=CFGT, config_dict=CFGD), modifies=["self"],
+         requires=["config_dict['prf_f_output_length'] >= 0"],
+         raises={"ValueError": dict(when="config_dict['param_lambda'] == -1 or config_dict['prf_f_output_length'] == -1 or "
+                                         "not (config_dict['param_lambda'] == 16 or config_dict['param_lambda'] == 24 or "
+                                         "config_dict['param_lambda'] == 32)", iff=True)},
+         ensures=["self.param_lambda == config_dict['param_lambda']",
+                  "self.prf_f_output_length == config_dict['prf_f_output_length']",
+                  "self.prf_f.key_length == self.param_lambda",
+                  "self.prf_f.output_length == (self.prf_f_output_length if self.prf_f_output_length != 0 else 20)",
+                  "self.prf_f.message_length == -1", "self.prf_f.hash_func_name == 'sha1'",
+                  "self.ske.key_length == self.param_lambda", "self.ske.message_length == -1", "self.ske.cipher_length == -1"],
+         lemmas=["X4_sha1_avail"], no_runtime=True, props=["C08", "C03", "C07"])
+for m_ in ("KeyGen", "EDBSetup", "TokenGen", "Search"):
+    inline(SCH + "." + m_)
+
+# C01 / C02 for PiBas: verified client code over the contracts of _Enc, _Trap, _Search (public wrappers inlined)
+contract("ghost:pibas_search_correct", params=dict(sse=SCHT, key=KEYT, database=DBT, keyword=TBytes), returns=REST,
+         body="""def pibas_search_correct(sse, key, database, keyword):
+    gK = key.K
+    gDB = database
+    gq = keyword
+    edb = sse.EDBSetup(key, database)
+    tk = sse.TokenGen(key, keyword)
+    return sse.Search(edb, tk)
+""",
+         requires=[r.replace("self.", "sse.") for r in VALID_CFG] + ["len(key.K) == sse.config.param_lambda"],
+         ensures=["result.result == (database[keyword] if keyword in database else [])"], props=["C01", "C02"])
